@@ -80,7 +80,23 @@ Proof.
     + apply (sg_z _ _ _ _ _ G z Hz).
 Qed.
 
-(* ---------- skiplist_lookup_after: the successor of a removed node's key ---------- *)
+(* ---------- successors: skiplist_node_next of a linked node, skiplist_lookup_after of a removed node's key ---------- *)
+(* b: the key the iterator stands on (None: before the first entry) *)
+Definition above (b : option key) (k : key) : bool := match b with None => true | Some bk => key_ltb bk k end.
+(* nx is the linked node with the least key above b *)
+Definition Succ (s : kstate) (C0 : list nat) (b : option key) (nx : option nat) : Prop :=
+  match nx with
+  | None => forall y, In y C0 -> above b (nkey s y) = false
+  | Some x => In x C0 /\ above b (nkey s x) = true /\
+              forall y, In y C0 -> key_ltb (nkey s y) (nkey s x) = true -> above b (nkey s y) = false
+  end.
+
+Lemma above_mono : forall b k1 k2, above b k1 = false -> key_ltb k2 k1 = true -> above b k2 = false.
+Proof.
+  intros [bk|] k1 k2; simpl; intros; [|discriminate].
+  destruct (key_ltb bk k2) eqn:E; auto. rewrite (key_ltb_trans _ _ _ E H0) in H. discriminate.
+Qed.
+
 Section LookupAfter.
 Variable RP : nat -> nat -> Prop.
 Variable ZP : nat -> snode -> Prop.
@@ -89,71 +105,133 @@ Variable s : kstate.
 Variable C0 : list nat.
 Hypothesis G : SGood RP ZP Zs s C0.
 
+Lemma hdr_not_in : ~ In HEADER C0.
+Proof. intro Q. destruct (sg_node _ _ _ _ _ G HEADER Q) as [_ [_ [_ [_ [_ [_ Q2]]]]]]. congruence. Qed.
+
+(* the position c in the level-0 chain, the bound at or above c and below the node after c *)
+Lemma succ_at_pos : forall pre c T b, HEADER :: C0 = pre ++ c :: T ->
+  (c = HEADER \/ above b (nkey s c) = false) -> (forall y, hd_error T = Some y -> above b (nkey s y) = true) ->
+  Succ s C0 b (hd_error T).
+Proof.
+  intros pre c T b E LE GT. generalize (sg_sorted _ _ _ _ _ G). intro SS. generalize hdr_not_in. intro HN.
+  assert (POS : (pre = [] /\ c = HEADER /\ C0 = T) \/ (exists pre_t, C0 = pre_t ++ c :: T /\ c <> HEADER)).
+  { destruct pre as [|h0 pre_t]; simpl in E; injection E as EH EC.
+    - left. auto.
+    - right. exists pre_t. split; auto. intro; subst c. apply HN. rewrite EC. apply in_or_app; right; left; auto. }
+  assert (BEFORE : forall y, In y C0 -> In y T \/ above b (nkey s y) = false).
+  { intros y Hy. destruct POS as [[P1 [P2 P3]]|[pre_t [P1 P2]]].
+    - left. rewrite <- P3. auto.
+    - destruct LE as [LE|LE]; [contradiction|].
+      rewrite P1 in Hy. apply in_app_or in Hy. destruct Hy as [Hy|[Hy|Hy]]; auto; right.
+      + eapply above_mono. exact LE. rewrite P1 in SS. apply (ss_app_lt _ _ _ y c SS Hy). left; auto.
+      + subst y. auto. }
+  assert (TC : forall y, In y T -> In y C0).
+  { intros y Hy. destruct POS as [[P1 [P2 P3]]|[pre_t [P1 P2]]]. rewrite P3; auto. rewrite P1. apply in_or_app. right; right; auto. }
+  assert (SST : StronglySorted (klt s) T).
+  { destruct POS as [[P1 [P2 P3]]|[pre_t [P1 P2]]]. rewrite <- P3; auto. rewrite P1 in SS. apply ss_app_r in SS. inversion SS; auto. }
+  destruct T as [|x T']; cbn [hd_error Succ].
+  - intros y Hy. destruct (BEFORE y Hy) as [[]|Q]; auto.
+  - split. apply TC; left; auto. split. apply GT; auto.
+    intros y Hy LT. destruct (BEFORE y Hy) as [[Q|Q]|Q]; auto.
+    + subst y. rewrite key_ltb_irrefl in LT. discriminate.
+    + inversion SST; subst. eapply Forall_forall in H2; eauto. unfold klt in H2. rewrite (key_ltb_asym _ _ H2) in LT. discriminate.
+Qed.
+
 Definition valid_at (lv : nat) (c : nat) : Prop := c = HEADER \/ (In c C0 /\ at_level s lv c = true).
+Definition lek (k : key) (c : nat) : Prop := c = HEADER \/ key_ltb k (nkey s c) = false.
 
 Lemma filter_length_le' : forall {A} (p : A -> bool) l, length (filter p l) <= length l.
 Proof. induction l; simpl; auto. destruct (p a); simpl; lia. Qed.
 
-Lemma valid_linked : forall lv c, lv <= LEVEL_MAX -> valid_at lv c ->
-  exists T, Linked s lv c T /\ (forall x, In x T -> In x C0 /\ at_level s lv x = true) /\ length T <= length C0.
+Lemma valid_split : forall lv c, lv <= LEVEL_MAX -> valid_at lv c ->
+  exists pre T, HEADER :: chain s C0 lv = pre ++ c :: T /\ Linked s lv c T.
 Proof.
   intros lv c Hl [V|[V1 V2]].
-  - subst c. exists (chain s C0 lv). split. apply (sg_linked _ _ _ _ _ G lv Hl). split.
-    + intros x Hx. unfold chain in Hx. apply filter_In in Hx. apply Hx.
-    + apply filter_length_le'.
+  - subst c. exists [], (chain s C0 lv). split; auto. apply (sg_linked _ _ _ _ _ G lv Hl).
   - assert (IN : In c (chain s C0 lv)) by (unfold chain; apply filter_In; auto).
-    apply in_split in IN. destruct IN as [pre [post E]]. exists post. split.
-    + eapply linked_suffix. apply (sg_linked _ _ _ _ _ G lv Hl). exact E.
-    + assert (SUB : forall x, In x post -> In x (chain s C0 lv)) by (intros; rewrite E; apply in_or_app; right; right; auto).
-      split. intros x Hx. apply SUB in Hx. unfold chain in Hx. apply filter_In in Hx. apply Hx.
-      assert (length (chain s C0 lv) <= length C0) by apply filter_length_le'. rewrite E, app_length in H. simpl in H. lia.
+    apply in_split in IN. destruct IN as [pre [post E]]. exists (HEADER :: pre), post. split. rewrite E. reflexivity.
+    eapply linked_suffix. apply (sg_linked _ _ _ _ _ G lv Hl). exact E.
 Qed.
 
-Lemma lal_ok : forall k lv T fuel c, Linked s lv c T -> (forall x, In x T -> In x C0 /\ at_level s lv x = true) -> length T < fuel ->
-  exists c', lookup_after_level fuel s k c lv = Ok c' /\ (c' = c \/ (In c' C0 /\ at_level s lv c' = true)).
+Lemma chain_member : forall lv x, In x (chain s C0 lv) -> In x C0 /\ at_level s lv x = true.
+Proof. intros. unfold chain in H. apply filter_In in H. auto. Qed.
+
+Lemma lal_ok : forall k lv T fuel pre c, HEADER :: chain s C0 lv = pre ++ c :: T -> Linked s lv c T -> length T < fuel ->
+  exists pre' c' T', lookup_after_level fuel s k c lv = Ok c' /\ HEADER :: chain s C0 lv = pre' ++ c' :: T' /\ Linked s lv c' T' /\
+    (c' = c \/ (In c' C0 /\ at_level s lv c' = true /\ key_ltb k (nkey s c') = false)) /\
+    (forall y, hd_error T' = Some y -> key_ltb k (nkey s y) = true).
 Proof.
-  induction T; intros fuel c L TC Hf.
-  - destruct fuel; [simpl in Hf; lia|]. cbn [lookup_after_level]. simpl in L. rewrite L. cbn [bind]. eauto.
+  induction T; intros fuel pre c E L Hf.
+  - destruct fuel; [simpl in Hf; lia|]. cbn [lookup_after_level]. simpl in L. rewrite L. cbn [bind].
+    exists pre, c, []. repeat split; auto. intros y Q; discriminate.
   - destruct fuel; [simpl in Hf; lia|]. cbn [lookup_after_level]. destruct L as [L1 L2]. rewrite L1. cbn [bind].
-    destruct (TC a (or_introl eq_refl)) as [AC AL].
+    assert (AIN : In a (chain s C0 lv)).
+    { assert (In a (HEADER :: chain s C0 lv)) by (rewrite E; apply in_or_app; right; right; left; auto).
+      destruct H as [H|H]; auto. exfalso. subst a.
+      assert (In HEADER (chain s C0 lv)).
+      { destruct pre as [|h0 pre_t]; simpl in E; injection E as EH EC.
+        - rewrite EC. left; auto.
+        - rewrite EC. apply in_or_app; right; right; left; auto. }
+      apply chain_member in H. apply hdr_not_in. apply H. }
+    destruct (chain_member lv a AIN) as [AC AL].
     destruct (sg_node _ _ _ _ _ G a AC) as [m [ka [M1 [M2 _]]]]. rewrite M1. cbn [bind]. rewrite M2.
-    destruct (key_ltb k ka). eauto.
-    destruct (IHT fuel a L2) as [c' [Q1 Q2]]. intros; apply TC; right; auto. simpl in Hf; lia.
-    exists c'. split; auto. destruct Q2 as [Q2|Q2]; auto. subst c'. right; auto.
+    assert (KA : nkey s a = ka) by (eapply nkey_some; eauto).
+    destruct (key_ltb k ka) eqn:LT.
+    + exists pre, c, (a :: T). repeat split; auto. intros y Q. simpl in Q. inversion Q; subst y. rewrite KA. auto.
+    + destruct (IHT fuel (pre ++ [c]) a) as [pre' [c' [T' [Q1 [Q2 [Q3 [Q4 Q5]]]]]]].
+      rewrite <- app_assoc. exact E. exact L2. simpl in Hf; lia.
+      exists pre', c', T'. repeat split; auto. destruct Q4 as [Q4|Q4]; auto. subst c'. right. rewrite KA. auto.
 Qed.
 
 Lemma at_level_down : forall lv x, at_level s (S lv) x = true -> at_level s lv x = true.
 Proof. unfold at_level. intros. apply Nat.leb_le in H. apply Nat.leb_le. lia. Qed.
 
-Lemma lal_valid : forall k lv c, lv <= LEVEL_MAX -> valid_at lv c ->
-  exists c', lookup_after_level (search_fuel s) s k c lv = Ok c' /\ valid_at lv c'.
+Lemma lal_valid : forall k lv c, lv <= LEVEL_MAX -> valid_at lv c -> lek k c ->
+  exists pre' c' T', lookup_after_level (search_fuel s) s k c lv = Ok c' /\ valid_at lv c' /\ lek k c' /\
+    HEADER :: chain s C0 lv = pre' ++ c' :: T' /\ (forall y, hd_error T' = Some y -> key_ltb k (nkey s y) = true).
 Proof.
-  intros k lv c Hl V. destruct (valid_linked lv c Hl V) as [T [T1 [T2 T3]]].
-  destruct (lal_ok k lv T (search_fuel s) c T1 T2) as [c' [Q1 Q2]].
-  { unfold search_fuel. generalize (sgood_len _ _ _ _ _ G). lia. }
-  exists c'. split; auto. destruct Q2 as [Q2|Q2]. subst; auto. right; auto.
+  intros k lv c Hl V LE. destruct (valid_split lv c Hl V) as [pre [T [E L]]].
+  destruct (lal_ok k lv T (search_fuel s) pre c E L) as [pre' [c' [T' [Q1 [Q2 [Q3 [Q4 Q5]]]]]]].
+  { assert (length (HEADER :: chain s C0 lv) <= S (length C0)) by (simpl; generalize (filter_length_le' (at_level s lv) C0); unfold chain; lia).
+    rewrite E, app_length in H. simpl in H. unfold search_fuel. generalize (sgood_len _ _ _ _ _ G). lia. }
+  exists pre', c', T'. split; auto. destruct Q4 as [Q4|[Q4 [Q6 Q7]]].
+  - subst c'. auto.
+  - split. right; auto. split. right; auto. auto.
 Qed.
 
-Lemma lals_ok : forall k lv c, lv <= LEVEL_MAX -> valid_at lv c ->
-  exists c', lookup_after_levels s k c (rev (seq 0 (S lv))) = Ok c' /\ valid_at 0 c'.
+Lemma lals_ok : forall k lv c, lv <= LEVEL_MAX -> valid_at lv c -> lek k c ->
+  exists pre' c' T', lookup_after_levels s k c (rev (seq 0 (S lv))) = Ok c' /\ lek k c' /\
+    HEADER :: C0 = pre' ++ c' :: T' /\ (forall y, hd_error T' = Some y -> key_ltb k (nkey s y) = true).
 Proof.
-  induction lv; intros c Hl V.
-  - cbn [seq rev app lookup_after_levels]. destruct (lal_valid k 0 c Hl V) as [c' [Q1 Q2]]. rewrite Q1. cbn [bind]. eauto.
+  induction lv; intros c Hl V LE.
+  - cbn [seq rev app lookup_after_levels]. destruct (lal_valid k 0 c Hl V LE) as [pre' [c' [T' [Q1 [Q2 [Q3 [Q4 Q5]]]]]]]. rewrite Q1. cbn [bind].
+    exists pre', c', T'. rewrite chain_level0 in Q4. auto.
   - rewrite seq_S, rev_app_distr. cbn [rev app plus lookup_after_levels].
-    destruct (lal_valid k (S lv) c Hl V) as [c1 [Q1 Q2]]. rewrite Q1. cbn [bind].
-    apply IHlv. lia. destruct Q2 as [Q2|[Q2 Q3]]. left; auto. right. split; auto. apply at_level_down; auto.
+    destruct (lal_valid k (S lv) c Hl V LE) as [pre1 [c1 [T1 [Q1 [Q2 [Q3 _]]]]]]. rewrite Q1. cbn [bind].
+    apply IHlv; auto. lia. destruct Q2 as [Q2|[Q2 Q6]]. left; auto. right. split; auto. apply at_level_down; auto.
 Qed.
 
-Lemma lookup_after_ok : forall k, exists nx, k_lookup_after s k = Ok nx /\ (forall x, nx = Some x -> In x C0).
+Lemma valid0_linked : forall pre c T, HEADER :: C0 = pre ++ c :: T -> Linked s 0 c T.
+Proof.
+  intros. generalize (sg_linked _ _ _ _ _ G 0 (Nat.le_0_l _)). rewrite chain_level0. intro L.
+  destruct pre as [|h0 pre_t]; simpl in H; injection H as EH EC.
+  - rewrite <- EH, <- EC. auto.
+  - eapply linked_suffix. exact L. exact EC.
+Qed.
+
+Lemma lookup_after_ok : forall k, exists nx, k_lookup_after s k = Ok nx /\ Succ s C0 (Some k) nx.
 Proof.
   intros k. unfold k_lookup_after, levels_down. generalize (sg_level _ _ _ _ _ G). intro LV.
-  assert (FIN : forall c, valid_at 0 c -> exists nx, fwd s c 0 = Ok nx /\ (forall x, nx = Some x -> In x C0)).
-  { intros c V. destruct (valid_linked 0 c (Nat.le_0_l _) V) as [T [T1 [T2 _]]]. exists (hd_error T). split.
-    apply linked_head; auto. intros x Hx. destruct T; simpl in Hx; inversion Hx; subst. apply T2. left; auto. }
+  assert (FIN : forall pre c T, lek k c -> HEADER :: C0 = pre ++ c :: T -> (forall y, hd_error T = Some y -> key_ltb k (nkey s y) = true) ->
+                exists nx, fwd s c 0 = Ok nx /\ Succ s C0 (Some k) nx).
+  { intros pre c T LE E GT. exists (hd_error T). split. apply linked_head. eapply valid0_linked; eauto.
+    eapply succ_at_pos; eauto. }
   destruct (Z.ltb (k_level s) 0) eqn:NEG.
-  - cbn [lookup_after_levels bind]. apply FIN. left; auto.
-  - apply Z.ltb_ge in NEG. destruct (lals_ok k (Z.to_nat (k_level s)) HEADER) as [c' [Q1 Q2]].
-    unfold LEVEL_MAX. lia. left; auto. rewrite Q1. cbn [bind]. apply FIN; auto.
+  - cbn [lookup_after_levels bind]. apply Z.ltb_lt in NEG.
+    assert (C0 = []). { destruct C0 as [|n l]; auto. destruct (sg_node _ _ _ _ _ G n) as [m [k0 [_ [_ [_ [Q _]]]]]]. left; auto. lia. }
+    apply (FIN [] HEADER C0). left; auto. reflexivity. rewrite H. intros y Q; discriminate.
+  - apply Z.ltb_ge in NEG. destruct (lals_ok k (Z.to_nat (k_level s)) HEADER) as [pre' [c' [T' [Q1 [Q2 [Q3 Q4]]]]]].
+    unfold LEVEL_MAX. lia. left; auto. left; auto. rewrite Q1. cbn [bind]. eapply FIN; eauto.
 Qed.
 End LookupAfter.
 
@@ -162,41 +240,52 @@ Definition inc (cnt : nat -> nat) (x : nat) : nat -> nat := fun id => if Nat.eqb
 Definition dec (cnt : nat -> nat) (x : nat) : nat -> nat := fun id => if Nat.eqb id x then pred (cnt id) else cnt id.
 (* a linked node (and the header): one reference of the list plus one per parked iterator *)
 Definition RPP (cnt : nat -> nat) : nat -> nat -> Prop := fun id r => r = S (cnt id).
-(* a removed node: marked, kept by the iterators parked on it and by nothing else *)
-Definition ZPP (cnt : nat -> nat) : nat -> snode -> Prop :=
-  fun z n => sn_key n <> None /\ (sn_level n < 0)%Z /\ sn_ref n = cnt z /\ 1 <= cnt z.
+(* a removed node: marked, still carrying its key zk z, kept by the iterators parked on it and by nothing else *)
+Definition ZPP (cnt : nat -> nat) (zk : nat -> key) : nat -> snode -> Prop :=
+  fun z n => sn_key n = Some (zk z) /\ (sn_level n < 0)%Z /\ sn_ref n = cnt z /\ 1 <= cnt z.
 
 Lemma rpp_pos : forall cnt id r, RPP cnt id r -> 1 <= r.
 Proof. unfold RPP. intros. lia. Qed.
 
-Record KInv (cnt : nat -> nat) (s : kstate) (C0 Zs : list nat) : Prop := {
-  ki_good : SGood (RPP cnt) (ZPP cnt) Zs s C0;
+Record KInv (cnt : nat -> nat) (zk : nat -> key) (s : kstate) (C0 Zs : list nat) : Prop := {
+  ki_good : SGood (RPP cnt) (ZPP cnt zk) Zs s C0;
   ki_pin : forall id, 1 <= cnt id -> In id (HEADER :: C0 ++ Zs)
 }.
 
 Definition same_tab (s s' : kstate) : Prop := k_iters s' = k_iters s /\ k_used s' = k_used s /\ k_alive s' = k_alive s.
+Definition keys_same (s s' : kstate) (C0 : list nat) : Prop := forall y, In y C0 -> sent s' y = sent s y.
 
-Lemma kinv_disj : forall cnt s C0 Zs x, KInv cnt s C0 Zs -> In x (HEADER :: C0) -> In x Zs -> False.
+Lemma keys_same_nkey : forall s s' C0 y, keys_same s s' C0 -> In y C0 -> nkey s' y = nkey s y.
+Proof. intros. rewrite <- !sent_key. rewrite H; auto. Qed.
+
+Lemma sent_put_same : forall s id n n' y, dnode s id = Ok n -> sn_key n' = sn_key n -> sn_val n' = sn_val n -> sn_subs n' = sn_subs n ->
+  sent (put_node s id n') y = sent s y.
 Proof.
-  intros. destruct (sg_z _ _ _ _ _ (ki_good _ _ _ _ H) x H1) as [_ [Z1 Z2]]. destruct H0; auto.
+  intros. unfold sent. rewrite dnode_put_node by (eapply dnode_lt; eauto). destruct (Nat.eqb id y) eqn:E; auto.
+  apply Nat.eqb_eq in E. subst. rewrite H, H0, H1, H2. reflexivity.
 Qed.
 
-Lemma kinv_chain_node : forall cnt s C0 Zs x, KInv cnt s C0 Zs -> In x (HEADER :: C0) ->
+Lemma kinv_disj : forall cnt zk s C0 Zs x, KInv cnt zk s C0 Zs -> In x (HEADER :: C0) -> In x Zs -> False.
+Proof.
+  intros. destruct (sg_z _ _ _ _ _ (ki_good _ _ _ _ _ H) x H1) as [_ [Z1 Z2]]. destruct H0; auto.
+Qed.
+
+Lemma kinv_chain_node : forall cnt zk s C0 Zs x, KInv cnt zk s C0 Zs -> In x (HEADER :: C0) ->
   exists n, dnode s x = Ok n /\ sn_ref n = S (cnt x) /\ (0 <= sn_level n)%Z.
 Proof.
-  intros cnt s C0 Zs x K [Hx|Hx].
-  - subst x. destruct (sg_hdr _ _ _ _ _ (ki_good _ _ _ _ K)) as [h [H1 [H2 H3]]]. exists h. split; auto. split; auto.
-    apply (sg_hlvl _ _ _ _ _ (ki_good _ _ _ _ K)); auto.
-  - destruct (sg_node _ _ _ _ _ (ki_good _ _ _ _ K) x Hx) as [m [k [M1 [M2 [M3 [M4 M5]]]]]]. exists m. split; auto. split; auto. lia.
+  intros cnt zk s C0 Zs x K [Hx|Hx].
+  - subst x. destruct (sg_hdr _ _ _ _ _ (ki_good _ _ _ _ _ K)) as [h [H1 [H2 H3]]]. exists h. split; auto. split; auto.
+    apply (sg_hlvl _ _ _ _ _ (ki_good _ _ _ _ _ K)); auto.
+  - destruct (sg_node _ _ _ _ _ (ki_good _ _ _ _ _ K) x Hx) as [m [k [M1 [M2 [M3 [M4 M5]]]]]]. exists m. split; auto. split; auto. lia.
 Qed.
 
 (* parking one more iterator on a linked node *)
-Lemma kinv_bump : forall cnt s C0 Zs x xn, KInv cnt s C0 Zs -> In x (HEADER :: C0) -> dnode s x = Ok xn ->
-  KInv (inc cnt x) (put_node s x (bumpk xn)) C0 Zs.
+Lemma kinv_bump : forall cnt zk s C0 Zs x xn, KInv cnt zk s C0 Zs -> In x (HEADER :: C0) -> dnode s x = Ok xn ->
+  KInv (inc cnt x) zk (put_node s x (bumpk xn)) C0 Zs.
 Proof.
-  intros cnt s C0 Zs x xn K Hx N. destruct (kinv_chain_node _ _ _ _ x K Hx) as [n [N1 [N2 N3]]]. rewrite N in N1. inversion N1; subst n.
+  intros cnt zk s C0 Zs x xn K Hx N. destruct (kinv_chain_node _ _ _ _ _ x K Hx) as [n [N1 [N2 N3]]]. rewrite N in N1. inversion N1; subst n.
   constructor.
-  - eapply (sgood_put_gen (RPP cnt) (ZPP cnt) Zs (RPP (inc cnt x)) (ZPP (inc cnt x))). apply (ki_good _ _ _ _ K).
+  - eapply (sgood_put_gen (RPP cnt) (ZPP cnt zk) Zs (RPP (inc cnt x)) (ZPP (inc cnt x) zk)). apply (ki_good _ _ _ _ _ K).
     + destruct Hx; [left|right; apply in_or_app]; auto.
     + exact N.
     + reflexivity.
@@ -207,17 +296,18 @@ Proof.
     + intros z m Hz. unfold ZPP, inc. replace (Nat.eqb z x) with false by (symmetry; apply Nat.eqb_neq; auto). auto.
   - intros id Hid. unfold inc in Hid. destruct (Nat.eqb id x) eqn:E.
     + apply Nat.eqb_eq in E. subst id. destruct Hx; [left|right; apply in_or_app]; auto.
-    + apply (ki_pin _ _ _ _ K); auto.
+    + apply (ki_pin _ _ _ _ _ K); auto.
 Qed.
 
 Lemma same_tab_put_node : forall s x n, same_tab s (put_node s x n).
 Proof. intros. repeat split. Qed.
 
 (* an iterator leaves the node it was parked on *)
-Lemma kinv_deref : forall cnt s C0 Zs p, KInv cnt s C0 Zs -> 1 <= cnt p ->
-  exists s' ns Zs', k_node_deref kv_fixed s p = Ok (s', ns) /\ KInv (dec cnt p) s' C0 Zs' /\ same_tab s s'.
+Lemma kinv_deref : forall cnt zk s C0 Zs p, KInv cnt zk s C0 Zs -> 1 <= cnt p ->
+  exists s' ns Zs', k_node_deref kv_fixed s p = Ok (s', ns) /\ KInv (dec cnt p) zk s' C0 Zs' /\ same_tab s s' /\
+    keys_same s s' C0 /\ (forall z, In z Zs' -> In z Zs) /\ (forall z, In z Zs -> z <> p \/ 2 <= cnt p -> In z Zs').
 Proof.
-  intros cnt s C0 Zs p K CP. generalize (ki_pin _ _ _ _ K p CP). intro PU.
+  intros cnt zk s C0 Zs p K CP. generalize (ki_pin _ _ _ _ _ K p CP). intro PU.
   assert (PU' : In p (HEADER :: C0) \/ In p Zs).
   { destruct PU as [Q|Q]. left; left; auto. apply in_app_or in Q. destruct Q; auto. left; right; auto. }
   assert (DECO : forall y, y <> p -> dec cnt p y = cnt y).
@@ -225,27 +315,28 @@ Proof.
   assert (DECP : dec cnt p p = pred (cnt p)) by (unfold dec; rewrite Nat.eqb_refl; auto).
   destruct PU' as [PC|PZ].
   - (* a linked node or the header: the list keeps it *)
-    destruct (kinv_chain_node _ _ _ _ p K PC) as [n [N1 [N2 N3]]].
-    rewrite (deref_store_ok s p n N1) by lia. exists (put_node s p (lower_ref n)), [], Zs. split; auto. split; [|apply same_tab_put_node].
-    constructor.
-    + eapply (sgood_put_gen (RPP cnt) (ZPP cnt) Zs (RPP (dec cnt p)) (ZPP (dec cnt p))). apply (ki_good _ _ _ _ K).
-      * exact PU.
-      * exact N1.
-      * reflexivity.
-      * reflexivity.
-      * intros _. split. reflexivity. unfold RPP. simpl. rewrite N2, DECP. lia.
-      * intros Q. exfalso. eapply kinv_disj; eauto.
-      * intros y r Hy. unfold RPP. rewrite DECO; auto.
-      * intros z m Hz. unfold ZPP. rewrite DECO; auto.
-    + intros id Hid. destruct (Nat.eq_dec id p). subst; auto. rewrite DECO in Hid by auto. apply (ki_pin _ _ _ _ K); auto.
+    destruct (kinv_chain_node _ _ _ _ _ p K PC) as [n [N1 [N2 N3]]].
+    rewrite (deref_store_ok s p n N1) by lia. exists (put_node s p (lower_ref n)), [], Zs. split; auto.
+    split; [|split; [apply same_tab_put_node|split; [|split; auto]]].
+    + constructor.
+      * eapply (sgood_put_gen (RPP cnt) (ZPP cnt zk) Zs (RPP (dec cnt p)) (ZPP (dec cnt p) zk)). apply (ki_good _ _ _ _ _ K).
+        { exact PU. }
+        { exact N1. }
+        { reflexivity. }
+        { reflexivity. }
+        { intros _. split. reflexivity. unfold RPP. simpl. rewrite N2, DECP. lia. }
+        { intros Q. exfalso. eapply kinv_disj; eauto. }
+        { intros y r Hy. unfold RPP. rewrite DECO; auto. }
+        { intros z m Hz. unfold ZPP. rewrite DECO; auto. }
+      * intros id Hid. destruct (Nat.eq_dec id p). subst; auto. rewrite DECO in Hid by auto. apply (ki_pin _ _ _ _ _ K); auto.
+    + intros y _. eapply sent_put_same; eauto.
   - (* a removed node *)
-    destruct (sg_z _ _ _ _ _ (ki_good _ _ _ _ K) p PZ) as [[n [N1 [Z1 [Z2 [Z3 Z4]]]]] [PH PNC]].
+    destruct (sg_z _ _ _ _ _ (ki_good _ _ _ _ _ K) p PZ) as [[n [N1 [Z1 [Z2 [Z3 Z4]]]]] [PH PNC]].
     destruct (Nat.eq_dec (cnt p) 1) as [ONE|MORE].
     + (* the last iterator: the node is destroyed now *)
-      destruct (sn_key n) as [kp|] eqn:KP; [|congruence].
-      destruct (own_arr _ _ (sg_own _ _ _ _ _ (ki_good _ _ _ _ K)) p n PU N1) as [a [A1 A2]].
-      destruct (sg_hdr _ _ _ _ _ (ki_good _ _ _ _ K)) as [h [H1 _]].
-      destruct (deref_destroy_ok s p n kp a h N1) as [s' [P1 [P2 [P3 [P4 [P5 [P6 [P7 [P8 P9]]]]]]]]]; auto. lia.
+      destruct (own_arr _ _ (sg_own _ _ _ _ _ (ki_good _ _ _ _ _ K)) p n PU N1) as [a [A1 A2]].
+      destruct (sg_hdr _ _ _ _ _ (ki_good _ _ _ _ _ K)) as [h [H1 _]].
+      destruct (deref_destroy_ok s p n (zk p) a h N1) as [s' [P1 [P2 [P3 [P4 [P5 [P6 [P7 [P8 P9]]]]]]]]]; auto. lia.
       set (Zs' := filter (fun z => negb (Nat.eqb z p)) Zs).
       assert (ZS' : forall z, In z Zs' <-> In z Zs /\ z <> p).
       { intros. unfold Zs'. rewrite filter_In. rewrite negb_true_iff, Nat.eqb_neq. tauto. }
@@ -253,121 +344,171 @@ Proof.
       { intros x [Hx|Hx]. subst. split; auto. left; auto. apply in_app_or in Hx. destruct Hx as [Hx|Hx].
         split. intro; subst; contradiction. right; apply in_or_app; auto.
         apply ZS' in Hx. destruct Hx. split; auto. right; apply in_or_app; auto. }
-      eexists s', _, Zs'. split; [exact P1|]. split; [|repeat split; auto].
-      constructor.
-      * eapply (sgood_transfer (RPP cnt) (RPP (dec cnt p)) (ZPP cnt) (ZPP (dec cnt p)) Zs Zs' s s'). apply (ki_good _ _ _ _ K).
-        { intros x Hx. apply P2. apply NP; auto. }
-        { intros x m Hx M. apply P3. intro Q. destruct (NP x Hx) as [X1 X2]. apply X1.
-          apply (own_inj _ _ (sg_own _ _ _ _ _ (ki_good _ _ _ _ K)) x p m n); auto. }
-        { auto. } { auto. } { auto. }
-        { intros z Hz. apply ZS' in Hz. apply Hz. }
-        { intros id r Hid. unfold RPP. rewrite DECO; auto. intro; subst. destruct Hid; auto. }
-        { intros z m Hz. apply ZS' in Hz. unfold ZPP. rewrite DECO; auto. apply Hz. }
-      * intros id Hid. destruct (Nat.eq_dec id p). subst. rewrite DECP in Hid. lia. rewrite DECO in Hid by auto.
-        generalize (ki_pin _ _ _ _ K id Hid). intros [Q|Q]. left; auto. right. apply in_app_or in Q. apply in_or_app.
-        destruct Q; auto. right. apply ZS'. auto.
-    + rewrite (deref_store_ok s p n N1) by lia. exists (put_node s p (lower_ref n)), [], Zs. split; auto. split; [|apply same_tab_put_node].
-      constructor.
-      * eapply (sgood_put_gen (RPP cnt) (ZPP cnt) Zs (RPP (dec cnt p)) (ZPP (dec cnt p))). apply (ki_good _ _ _ _ K).
-        { exact PU. }
-        { exact N1. }
-        { reflexivity. }
-        { reflexivity. }
-        { intros Q. exfalso. eapply kinv_disj; eauto. }
-        { intros _. unfold ZPP. simpl. rewrite DECP. repeat split; auto; lia. }
-        { intros y r Hy. unfold RPP. rewrite DECO; auto. }
-        { intros z m Hz. unfold ZPP. rewrite DECO; auto. }
-      * intros id Hid. destruct (Nat.eq_dec id p). subst; auto. rewrite DECO in Hid by auto. apply (ki_pin _ _ _ _ K); auto.
+      eexists s', _, Zs'. split; [exact P1|]. split; [|split; [repeat split; auto|split; [|split]]].
+      * constructor.
+        { eapply (sgood_transfer (RPP cnt) (RPP (dec cnt p)) (ZPP cnt zk) (ZPP (dec cnt p) zk) Zs Zs' s s'). apply (ki_good _ _ _ _ _ K).
+          { intros x Hx. apply P2. apply NP; auto. }
+          { intros x m Hx M. apply P3. intro Q. destruct (NP x Hx) as [X1 X2]. apply X1.
+            apply (own_inj _ _ (sg_own _ _ _ _ _ (ki_good _ _ _ _ _ K)) x p m n); auto. }
+          { auto. } { auto. } { auto. }
+          { intros z Hz. apply ZS' in Hz. apply Hz. }
+          { intros id r Hid. unfold RPP. rewrite DECO; auto. intro; subst. destruct Hid; auto. }
+          { intros z m Hz. apply ZS' in Hz. unfold ZPP. rewrite DECO; auto. apply Hz. } }
+        { intros id Hid. destruct (Nat.eq_dec id p). subst. rewrite DECP in Hid. lia. rewrite DECO in Hid by auto.
+          generalize (ki_pin _ _ _ _ _ K id Hid). intros [Q|Q]. left; auto. right. apply in_app_or in Q. apply in_or_app.
+          destruct Q; auto. right. apply ZS'. auto. }
+      * intros y Hy. unfold sent. rewrite P2; auto. intro; subst; contradiction.
+      * intros z Hz. apply ZS' in Hz. apply Hz.
+      * intros z Hz [Q|Q]. apply ZS'; auto. lia.
+    + rewrite (deref_store_ok s p n N1) by lia. exists (put_node s p (lower_ref n)), [], Zs. split; auto.
+      split; [|split; [apply same_tab_put_node|split; [|split; auto]]].
+      * constructor.
+        { eapply (sgood_put_gen (RPP cnt) (ZPP cnt zk) Zs (RPP (dec cnt p)) (ZPP (dec cnt p) zk)). apply (ki_good _ _ _ _ _ K).
+          { exact PU. }
+          { exact N1. }
+          { reflexivity. }
+          { reflexivity. }
+          { intros Q. exfalso. eapply kinv_disj; eauto. }
+          { intros _. unfold ZPP. simpl. rewrite DECP. repeat split; auto; lia. }
+          { intros y r Hy. unfold RPP. rewrite DECO; auto. }
+          { intros z m Hz. unfold ZPP. rewrite DECO; auto. } }
+        { intros id Hid. destruct (Nat.eq_dec id p). subst; auto. rewrite DECO in Hid by auto. apply (ki_pin _ _ _ _ _ K); auto. }
+      * intros y _. eapply sent_put_same; eauto.
 Qed.
 
-(* the successor of a parked position: forward[0] for a linked node, lookup_after for a removed one *)
-Lemma kinv_succ : forall cnt s C0 Zs p pn, KInv cnt s C0 Zs -> 1 <= cnt p -> dnode s p = Ok pn ->
-  exists nx, (if kx_removed kv_fixed && Z.ltb (sn_level pn) 0
-              then match sn_key pn with Some pk => k_lookup_after s pk | None => Err NullDeref end
-              else node_next (search_fuel s) s p) = Ok nx /\ (forall x, nx = Some x -> In x C0).
+(* the key an iterator parked on p stands on *)
+Definition PB (s : kstate) (C0 Zs : list nat) (zk : nat -> key) (p : nat) (b : option key) : Prop :=
+  (p = HEADER /\ b = None) \/ (In p C0 /\ b = Some (nkey s p)) \/ (In p Zs /\ b = Some (zk p)).
+
+Lemma pb_fun : forall cnt zk s C0 Zs p b1 b2, KInv cnt zk s C0 Zs -> PB s C0 Zs zk p b1 -> PB s C0 Zs zk p b2 -> b1 = b2.
 Proof.
-  intros cnt s C0 Zs p pn K CP N. generalize (ki_pin _ _ _ _ K p CP). intro PU. simpl kx_removed. cbn [andb].
+  intros cnt zk s C0 Zs p b1 b2 K H1 H2.
+  assert (HN : ~ In HEADER C0) by (eapply hdr_not_in; apply (ki_good _ _ _ _ _ K)).
+  destruct H1 as [[A1 A2]|[[A1 A2]|[A1 A2]]], H2 as [[B1 B2]|[[B1 B2]|[B1 B2]]]; subst; auto; exfalso;
+    try contradiction; try (eapply kinv_disj; eauto; try (left; reflexivity); try (right; assumption); fail).
+Qed.
+
+(* the successor of a parked position: forward[0] for a linked node, lookup_after for a removed one - in both cases
+   the linked node with the least key above the key the iterator stands on *)
+Lemma kinv_succ : forall cnt zk s C0 Zs p pn, KInv cnt zk s C0 Zs -> 1 <= cnt p -> dnode s p = Ok pn ->
+  exists nx b, (if kx_removed kv_fixed && Z.ltb (sn_level pn) 0
+              then match sn_key pn with Some pk => k_lookup_after s pk | None => Err NullDeref end
+              else node_next (search_fuel s) s p) = Ok nx /\ PB s C0 Zs zk p b /\ Succ s C0 b nx.
+Proof.
+  intros cnt zk s C0 Zs p pn K CP N. generalize (ki_pin _ _ _ _ _ K p CP). intro PU. simpl kx_removed. cbn [andb].
+  generalize (ki_good _ _ _ _ _ K). intro G.
   assert (PU' : In p (HEADER :: C0) \/ In p Zs).
   { destruct PU as [Q|Q]. left; left; auto. apply in_app_or in Q. destruct Q; auto. left; right; auto. }
   destruct PU' as [PC|PZ].
-  - destruct (kinv_chain_node _ _ _ _ p K PC) as [n [N1 [N2 N3]]]. rewrite N in N1. inversion N1; subst n.
+  - destruct (kinv_chain_node _ _ _ _ _ p K PC) as [n [N1 [N2 N3]]]. rewrite N in N1. inversion N1; subst n.
     replace (Z.ltb (sn_level pn) 0) with false by (symmetry; apply Z.ltb_ge; auto).
-    destruct (valid_linked (RPP cnt) (ZPP cnt) Zs s C0 (ki_good _ _ _ _ K) 0 p (Nat.le_0_l _)) as [T [T1 [T2 _]]].
-    { destruct PC as [Q|Q]. left; auto. right. split; auto. }
-    exists (hd_error T). split.
-    + apply (node_next_ok (RPP cnt) (ZPP cnt) Zs (rpp_pos cnt) s C0 p T (ki_good _ _ _ _ K) T1). intros x Hx. apply T2; auto.
-    + intros x Hx. destruct T; simpl in Hx; inversion Hx; subst. apply T2. left; auto.
-  - destruct (sg_z _ _ _ _ _ (ki_good _ _ _ _ K) p PZ) as [[n [N1 [Z1 [Z2 [Z3 Z4]]]]] [PH PNC]]. rewrite N in N1. inversion N1; subst n.
-    replace (Z.ltb (sn_level pn) 0) with true by (symmetry; apply Z.ltb_lt; auto).
-    destruct (sn_key pn) as [pk|]; [|congruence].
-    apply (lookup_after_ok (RPP cnt) (ZPP cnt) Zs s C0 (ki_good _ _ _ _ K) pk).
+    apply in_split in PC. destruct PC as [pre [T E]].
+    assert (LT : Linked s 0 p T) by (eapply valid0_linked; eauto).
+    assert (TC : forall x, In x T -> In x C0).
+    { intros x Hx. destruct pre as [|h0 pre_t]; simpl in E; injection E as EH EC. rewrite EC; auto. rewrite EC. apply in_or_app; right; right; auto. }
+    set (b := if Nat.eqb p HEADER then None else Some (nkey s p)).
+    exists (hd_error T), b. split; [|split].
+    + apply (node_next_ok (RPP cnt) (ZPP cnt zk) Zs (rpp_pos cnt) s C0 p T G LT TC).
+    + unfold b. destruct (Nat.eqb p HEADER) eqn:EP.
+      * apply Nat.eqb_eq in EP. left; auto.
+      * apply Nat.eqb_neq in EP. right; left. split; auto.
+        destruct pre as [|h0 pre_t]; simpl in E; injection E as EH EC. congruence. rewrite EC. apply in_or_app; right; left; auto.
+    + eapply (succ_at_pos _ _ _ s C0 G pre p T b E).
+      * unfold b. destruct (Nat.eqb p HEADER) eqn:EP. apply Nat.eqb_eq in EP; auto. right. simpl. apply key_ltb_irrefl.
+      * intros y Hy. unfold b. destruct (Nat.eqb p HEADER) eqn:EP; auto. simpl. apply Nat.eqb_neq in EP.
+        destruct T as [|x T']; simpl in Hy; inversion Hy; subst x.
+        destruct pre as [|h0 pre_t]; simpl in E; injection E as EH EC. congruence.
+        generalize (sg_sorted _ _ _ _ _ G). rewrite EC. intro SS. apply ss_app_r in SS. inversion SS; subst.
+        eapply Forall_forall in H2. 2:{ left; reflexivity. } exact H2.
+  - destruct (sg_z _ _ _ _ _ G p PZ) as [[n [N1 [Z1 [Z2 [Z3 Z4]]]]] [PH PNC]]. rewrite N in N1. inversion N1; subst n.
+    replace (Z.ltb (sn_level pn) 0) with true by (symmetry; apply Z.ltb_lt; auto). rewrite Z1.
+    destruct (lookup_after_ok (RPP cnt) (ZPP cnt zk) Zs s C0 G (zk p)) as [nx [X1 X2]].
+    exists nx, (Some (zk p)). split; auto. split; auto. right; right; auto.
 Qed.
+
+Definition kvk' (s : kstate) (x : nat) : key * val := kv (sent s x).
 
 (* skiplist_iter_next from a parked position, whatever happened to the list since the iterator stopped there *)
-Lemma kinv_iter_next : forall cnt s C0 Zs p, KInv cnt s C0 Zs -> 1 <= cnt p ->
-  exists s' pos1 r ns Zs', k_iter_next kv_fixed s (Some p) = Ok (s', pos1, r, ns) /\
-    KInv (match pos1 with Some x => dec (inc cnt x) p | None => dec cnt p end) s' C0 Zs' /\ same_tab s s'.
+Lemma kinv_iter_next : forall cnt zk s C0 Zs p, KInv cnt zk s C0 Zs -> 1 <= cnt p ->
+  exists s' pos1 r ns Zs' b, k_iter_next kv_fixed s (Some p) = Ok (s', pos1, r, ns) /\
+    KInv (match pos1 with Some x => dec (inc cnt x) p | None => dec cnt p end) zk s' C0 Zs' /\ same_tab s s' /\
+    keys_same s s' C0 /\ (forall z, In z Zs' -> In z Zs) /\ (forall z, In z Zs -> z <> p \/ 2 <= cnt p -> In z Zs') /\
+    PB s C0 Zs zk p b /\ Succ s C0 b pos1 /\ r = option_map (kvk' s') pos1.
 Proof.
-  intros cnt s C0 Zs p K CP. generalize (ki_pin _ _ _ _ K p CP). intro PU.
+  intros cnt zk s C0 Zs p K CP. generalize (ki_pin _ _ _ _ _ K p CP). intro PU.
   assert (PL : exists pn, dnode s p = Ok pn).
-  { destruct PU as [Q|Q]. subst. destruct (sg_hdr _ _ _ _ _ (ki_good _ _ _ _ K)) as [h [H1 _]]; eauto.
-    apply in_app_or in Q. destruct Q as [Q|Q]. destruct (sg_node _ _ _ _ _ (ki_good _ _ _ _ K) p Q) as [m [k [M1 _]]]; eauto.
-    destruct (sg_z _ _ _ _ _ (ki_good _ _ _ _ K) p Q) as [[m [M1 _]] _]; eauto. }
+  { destruct PU as [Q|Q]. subst. destruct (sg_hdr _ _ _ _ _ (ki_good _ _ _ _ _ K)) as [h [H1 _]]; eauto.
+    apply in_app_or in Q. destruct Q as [Q|Q]. destruct (sg_node _ _ _ _ _ (ki_good _ _ _ _ _ K) p Q) as [m [k [M1 _]]]; eauto.
+    destruct (sg_z _ _ _ _ _ (ki_good _ _ _ _ _ K) p Q) as [[m [M1 _]] _]; eauto. }
   destruct PL as [pn N]. unfold k_iter_next. rewrite N. cbn [bind].
-  destruct (kinv_succ cnt s C0 Zs p pn K CP N) as [nx [X1 X2]]. rewrite X1. cbn [bind].
+  destruct (kinv_succ cnt zk s C0 Zs p pn K CP N) as [nx [b [X1 [XB X2]]]]. rewrite X1. cbn [bind].
   destruct nx as [x|].
-  - assert (XC : In x C0) by (apply X2; auto).
-    destruct (sg_node _ _ _ _ _ (ki_good _ _ _ _ K) x XC) as [xn [kx [M1 [M2 _]]]]. rewrite M1. cbn [bind]. fold (bumpk xn).
-    assert (K1 : KInv (inc cnt x) (put_node s x (bumpk xn)) C0 Zs) by (apply kinv_bump; auto; right; auto).
+  - assert (XC : In x C0) by (apply X2).
+    destruct (sg_node _ _ _ _ _ (ki_good _ _ _ _ _ K) x XC) as [xn [kx [M1 [M2 _]]]]. rewrite M1. cbn [bind]. fold (bumpk xn).
+    assert (K1 : KInv (inc cnt x) zk (put_node s x (bumpk xn)) C0 Zs) by (apply kinv_bump; auto; right; auto).
     assert (CP1 : 1 <= inc cnt x p). { unfold inc. destruct (Nat.eqb p x); lia. }
-    destruct (kinv_deref _ _ _ _ p K1 CP1) as [s2 [ns [Zs' [D1 [D2 D3]]]]]. rewrite D1. cbn [bind].
-    destruct (sg_node _ _ _ _ _ (ki_good _ _ _ _ D2) x XC) as [xn2 [kx2 [M1' [M2' _]]]]. rewrite M1'. cbn [bind]. rewrite M2'.
-    eexists s2, (Some x), _, ns, Zs'. split; [reflexivity|]. split; auto.
-  - destruct (kinv_deref _ _ _ _ p K CP) as [s2 [ns [Zs' [D1 [D2 D3]]]]]. rewrite D1. cbn [bind].
-    eexists s2, None, None, ns, Zs'. split; [reflexivity|]. split; auto.
+    destruct (kinv_deref _ _ _ _ _ p K1 CP1) as [s2 [ns [Zs' [D1 [D2 [D3 [D4 [D5 D6]]]]]]]]. rewrite D1. cbn [bind].
+    destruct (sg_node _ _ _ _ _ (ki_good _ _ _ _ _ D2) x XC) as [xn2 [kx2 [M1' [M2' _]]]]. rewrite M1'. cbn [bind]. rewrite M2'.
+    eexists s2, (Some x), _, ns, Zs', b. split; [reflexivity|]. split; auto. split; auto. split.
+    { intros y Hy. rewrite D4 by auto. eapply sent_put_same; eauto. }
+    split; auto. split.
+    { intros z Hz Q. apply D6; auto. destruct Q; auto. right. unfold inc. destruct (Nat.eqb p x); lia. }
+    split; auto. split; auto. simpl. unfold kvk'. rewrite (sent_node _ _ _ _ M1' M2'). reflexivity.
+  - destruct (kinv_deref _ _ _ _ _ p K CP) as [s2 [ns [Zs' [D1 [D2 [D3 [D4 [D5 D6]]]]]]]]. rewrite D1. cbn [bind].
+    eexists s2, None, None, ns, Zs', b. split; [reflexivity|]. split; [exact D2|]. split; [exact D3|]. split; [exact D4|].
+    split; [exact D5|]. split; [exact D6|]. split; [exact XB|]. split; [exact X2|reflexivity].
 Qed.
 
-Lemma kinv_iter_free : forall cnt s C0 Zs p, KInv cnt s C0 Zs -> 1 <= cnt p ->
-  exists s' ns Zs', k_iter_free kv_fixed s (Some p) = Ok (s', ns) /\ KInv (dec cnt p) s' C0 Zs' /\ same_tab s s'.
+Lemma kinv_iter_free : forall cnt zk s C0 Zs p, KInv cnt zk s C0 Zs -> 1 <= cnt p ->
+  exists s' ns Zs', k_iter_free kv_fixed s (Some p) = Ok (s', ns) /\ KInv (dec cnt p) zk s' C0 Zs' /\ same_tab s s' /\
+    keys_same s s' C0 /\ (forall z, In z Zs' -> In z Zs) /\ (forall z, In z Zs -> z <> p \/ 2 <= cnt p -> In z Zs').
 Proof. intros. unfold k_iter_free. simpl kx_iter_free. cbv iota. eapply kinv_deref; eauto. Qed.
 
-Lemma kinv_iter_create : forall cnt s C0 Zs, KInv cnt s C0 Zs ->
-  exists h, k_iter_create s = Ok (put_node s HEADER (bumpk h)) /\ KInv (inc cnt HEADER) (put_node s HEADER (bumpk h)) C0 Zs.
+Lemma kinv_iter_create : forall cnt zk s C0 Zs, KInv cnt zk s C0 Zs ->
+  exists h, k_iter_create s = Ok (put_node s HEADER (bumpk h)) /\ KInv (inc cnt HEADER) zk (put_node s HEADER (bumpk h)) C0 Zs /\
+    keys_same s (put_node s HEADER (bumpk h)) C0.
 Proof.
-  intros. destruct (sg_hdr _ _ _ _ _ (ki_good _ _ _ _ H)) as [h [H1 _]]. exists h. unfold k_iter_create. rewrite H1. cbn [bind].
-  split. reflexivity. apply kinv_bump; auto. left; auto.
+  intros. destruct (sg_hdr _ _ _ _ _ (ki_good _ _ _ _ _ H)) as [h [H1 _]]. exists h. unfold k_iter_create. rewrite H1. cbn [bind].
+  split. reflexivity. split. apply kinv_bump; auto. left; auto. intros y _. eapply sent_put_same; eauto.
 Qed.
 
 (* ---------- the operations that are not iterator operations, with iterators parked anywhere ---------- *)
-Lemma kinv_fresh : forall cnt s C0 Zs, KInv cnt s C0 Zs -> cnt (length (k_nodes s)) = 0.
+Lemma kinv_fresh : forall cnt zk s C0 Zs, KInv cnt zk s C0 Zs -> cnt (length (k_nodes s)) = 0.
 Proof.
-  intros cnt s C0 Zs K. destruct (cnt (length (k_nodes s))) eqn:E; auto. exfalso.
-  assert (PU : In (length (k_nodes s)) (HEADER :: C0 ++ Zs)) by (apply (ki_pin _ _ _ _ K); lia).
+  intros cnt zk s C0 Zs K. destruct (cnt (length (k_nodes s))) eqn:E; auto. exfalso.
+  assert (PU : In (length (k_nodes s)) (HEADER :: C0 ++ Zs)) by (apply (ki_pin _ _ _ _ _ K); lia).
   assert (exists n, dnode s (length (k_nodes s)) = Ok n).
-  { destruct PU as [Q|Q]. rewrite <- Q. destruct (sg_hdr _ _ _ _ _ (ki_good _ _ _ _ K)) as [h [H1 _]]; eauto.
-    apply in_app_or in Q. destruct Q as [Q|Q]. destruct (sg_node _ _ _ _ _ (ki_good _ _ _ _ K) _ Q) as [m [k [M1 _]]]; eauto.
-    destruct (sg_z _ _ _ _ _ (ki_good _ _ _ _ K) _ Q) as [[m [M1 _]] _]; eauto. }
+  { destruct PU as [Q|Q]. rewrite <- Q. destruct (sg_hdr _ _ _ _ _ (ki_good _ _ _ _ _ K)) as [h [H1 _]]; eauto.
+    apply in_app_or in Q. destruct Q as [Q|Q]. destruct (sg_node _ _ _ _ _ (ki_good _ _ _ _ _ K) _ Q) as [m [k [M1 _]]]; eauto.
+    destruct (sg_z _ _ _ _ _ (ki_good _ _ _ _ _ K) _ Q) as [[m [M1 _]] _]; eauto. }
   destruct H as [m M]. apply dnode_lt in M. lia.
 Qed.
 
-Lemma kinv_of_kstep : forall cnt s C0 Zs rc o orc, KInv cnt s C0 Zs -> kstep_ok (RPP cnt) (ZPP cnt) Zs rc s C0 o orc ->
+Lemma kinv_of_kstep : forall cnt zk s C0 Zs rc o orc, KInv cnt zk s C0 Zs -> (forall k, o <> Rm k) ->
+  kstep_ok (RPP cnt) (ZPP cnt zk) Zs rc s C0 o orc ->
   exists s' x ns, k_step kv_fixed rc s o orc = Ok (s', x, ns) /\
-    (k_alive s' = false \/ ((exists C0', KInv cnt s' C0' Zs) /\ k_iters s' = k_iters s /\ k_used s' = k_used s)).
+    (k_alive s' = false \/ ((exists C0', KInv cnt zk s' C0' Zs /\ (forall y, In y C0 -> In y C0' /\ nkey s' y = nkey s y)) /\
+                            k_iters s' = k_iters s /\ k_used s' = k_used s)).
 Proof.
-  intros cnt s C0 Zs rc o orc K [s' [C0' [x [x' [ns [E1 [_ [_ E4]]]]]]]]. exists s', x, ns. split; auto.
-  destruct E4 as [[G' [IT [US MEM]]]|D]; auto. right. split; auto. exists C0'. constructor; auto.
-  intros id Hid. generalize (ki_pin _ _ _ _ K id Hid). intros [Q|Q]. left; auto. right. apply in_app_or in Q. apply in_or_app.
-  destruct Q as [Q|Q]; auto. left.
-  destruct (sg_node _ _ _ _ _ (ki_good _ _ _ _ K) id Q) as [m [k [M1 [M2 [M3 _]]]]]. apply (MEM id m Q M1). unfold RPP in M3. lia.
+  intros cnt zk s C0 Zs rc o orc K NR [s' [C0' [x [x' [ns [E1 [_ [_ E4]]]]]]]]. exists s', x, ns. split; auto.
+  destruct E4 as [[G' [IT [US [MEM KEYS]]]]|D]; auto. right. split; auto. exists C0'.
+  assert (SUB : forall y, In y C0 -> In y C0').
+  { intros y Hy. destruct (sg_node _ _ _ _ _ (ki_good _ _ _ _ _ K) y Hy) as [m [k [M1 _]]]. apply (MEM y m Hy M1). right; auto. }
+  split.
+  - constructor; auto.
+    intros id Hid. generalize (ki_pin _ _ _ _ _ K id Hid). intros [Q|Q]. left; auto. right. apply in_app_or in Q. apply in_or_app.
+    destruct Q as [Q|Q]; auto.
+  - intros y Hy. split; auto.
 Qed.
 
-Lemma kinv_plain : forall cnt s C0 Zs rc o orc, KInv cnt s C0 Zs -> is_iter_op o = false -> (forall k, o <> Rm k) ->
+Lemma kinv_plain : forall cnt zk s C0 Zs rc o orc, KInv cnt zk s C0 Zs -> is_iter_op o = false -> (forall k, o <> Rm k) ->
   exists s' x ns, k_step kv_fixed rc s o orc = Ok (s', x, ns) /\
-    (k_alive s' = false \/ ((exists C0', KInv cnt s' C0' Zs) /\ k_iters s' = k_iters s /\ k_used s' = k_used s)).
+    (k_alive s' = false \/ ((exists C0', KInv cnt zk s' C0' Zs /\ (forall y, In y C0 -> In y C0' /\ nkey s' y = nkey s y)) /\
+                            k_iters s' = k_iters s /\ k_used s' = k_used s)).
 Proof.
-  intros cnt s C0 Zs rc o orc K NI NR. apply (kinv_of_kstep cnt s C0 Zs rc o orc K).
-  generalize (ki_good _ _ _ _ K). intro G. destruct o; try discriminate.
-  - apply kstep_put; auto. unfold RPP. rewrite (kinv_fresh _ _ _ _ K). reflexivity.
+  intros cnt zk s C0 Zs rc o orc K NI NR. apply (kinv_of_kstep cnt zk s C0 Zs rc o orc K NR).
+  generalize (ki_good _ _ _ _ _ K). intro G. destruct o; try discriminate.
+  - apply kstep_put; auto. unfold RPP. rewrite (kinv_fresh _ _ _ _ _ K). reflexivity.
   - apply (kstep_get _ _ _ rc s C0 k G).
   - exfalso. apply (NR k); auto.
   - apply (kstep_count _ _ _ rc s C0 G).
@@ -378,13 +519,17 @@ Proof.
 Qed.
 
 (* removal under parked iterators: the node is destroyed only when no iterator holds it *)
-Lemma kinv_rm : forall cnt s C0 Zs k, KInv cnt s C0 Zs ->
-  exists s' b ns C0' Zs', k_rm kv_fixed s k = Ok (s', b, ns) /\ KInv cnt s' C0' Zs' /\ same_tab s s'.
+Lemma kinv_rm : forall cnt zk s C0 Zs k, KInv cnt zk s C0 Zs ->
+  exists s' b ns C0' Zs' zk', k_rm kv_fixed s k = Ok (s', b, ns) /\ KInv cnt zk' s' C0' Zs' /\ same_tab s s' /\
+    (forall z, In z Zs -> In z Zs' /\ zk' z = zk z) /\
+    ((s' = s /\ C0' = C0 /\ (forall y, In y C0 -> nkey s y <> k)) \/
+     (exists lo y hi', C0 = lo ++ y :: hi' /\ C0' = lo ++ hi' /\ nkey s y = k /\ (forall z, In z C0' -> nkey s' z = nkey s z) /\
+        (1 <= cnt y -> In y Zs' /\ zk' y = k))).
 Proof.
-  intros cnt s C0 Zs k K. generalize (ki_good _ _ _ _ K). intro G.
-  destruct (rm_found (RPP cnt) (ZPP cnt) Zs (rpp_pos cnt) s C0 k G)
+  intros cnt zk s C0 Zs k K. generalize (ki_good _ _ _ _ _ K). intro G.
+  destruct (rm_found (RPP cnt) (ZPP cnt zk) Zs (rpp_pos cnt) s C0 k G)
     as [[A1 A2]|[lo [y [hi' [ny [h [s' [ns [E [N1 [N2 [H1 [A1 [G' [DS [LN [US [AL [IT CS]]]]]]]]]]]]]]]]]]].
-  { exists s, false, [], C0, Zs. split; auto. split; auto. repeat split. }
+  { exists s, false, [], C0, Zs, zk. split; auto. split; auto. split. repeat split. split; auto. }
   assert (YC : In y C0) by (rewrite E; apply in_or_app; right; left; auto).
   destruct (sg_node _ _ _ _ _ G y YC) as [ny0 [ky0 [N1' [_ [N3 [_ N5]]]]]]. rewrite N1 in N1'. inversion N1'; subst ny0. unfold RPP in N3.
   assert (NDC : NoDup C0) by (eapply sgood_nodup; eauto).
@@ -392,19 +537,33 @@ Proof.
   assert (SUB : forall id, id <> y -> In id (HEADER :: C0 ++ Zs) -> In id (HEADER :: (lo ++ hi') ++ Zs)).
   { intros id NE [Q|Q]. left; auto. right. apply in_app_or in Q. apply in_or_app. destruct Q as [Q|Q]; auto. left.
     rewrite E in Q. apply in_app_or in Q. apply in_or_app. destruct Q as [Q|[Q|Q]]; auto. congruence. }
+  assert (KY : nkey s y = k) by (eapply nkey_some; eauto).
+  assert (KS : forall z, In z (lo ++ hi') -> nkey s' z = nkey s z).
+  { intros z Hz. unfold nkey. rewrite DS; auto. intro; subst; contradiction. }
+  set (zk' := fun z => if Nat.eqb z y then k else zk z).
+  assert (ZK : forall z, In z Zs -> zk' z = zk z).
+  { intros z Hz. unfold zk'. destruct (Nat.eqb z y) eqn:EQ; auto. apply Nat.eqb_eq in EQ. subst z.
+    destruct (sg_z _ _ _ _ _ G y Hz) as [_ [_ Q]]. contradiction. }
+  assert (G2 : SGood (RPP cnt) (ZPP cnt zk') Zs s' (lo ++ hi')).
+  { eapply (sgood_transfer (RPP cnt) (RPP cnt) (ZPP cnt zk) (ZPP cnt zk') Zs Zs s' s'); eauto.
+    intros z m Hz. unfold ZPP. rewrite ZK; auto. }
   destruct CS as [[R1 NS]|[R1 [NS [DY [AY DIS]]]]].
   - (* nobody holds it: destroyed *)
-    exists s', true, ns, (lo ++ hi'), Zs. split; auto. split; [|repeat split; auto].
-    constructor; auto. intros id Hid. apply SUB. intro; subst. lia. apply (ki_pin _ _ _ _ K); auto.
+    exists s', true, ns, (lo ++ hi'), Zs, zk'. split; auto. split; [|split; [repeat split; auto|split]].
+    + constructor; auto. intros id Hid. apply SUB. intro; subst. lia. apply (ki_pin _ _ _ _ _ K); auto.
+    + intros z Hz. split; auto.
+    + right. exists lo, y, hi'. repeat split; auto; lia.
   - (* parked iterators keep it *)
-    exists s', true, ns, (lo ++ hi'), (y :: Zs). split; auto. split; [|repeat split; auto].
-    constructor.
-    + eapply sgood_add_zombie; eauto.
-      * unfold ZPP. simpl. rewrite N2. repeat split; try lia. discriminate.
-    + intros id Hid. destruct (Nat.eq_dec id y).
-      * subst. right. apply in_or_app. right. left; auto.
-      * generalize (SUB id n (ki_pin _ _ _ _ K id Hid)). intros [Q|Q]. left; auto. right. apply in_app_or in Q. apply in_or_app.
-        destruct Q; auto. right; right; auto.
+    exists s', true, ns, (lo ++ hi'), (y :: Zs), zk'. split; auto. split; [|split; [repeat split; auto|split]].
+    + constructor.
+      * eapply sgood_add_zombie; eauto.
+        unfold ZPP, zk'. simpl. rewrite N2, Nat.eqb_refl. repeat split; try lia.
+      * intros id Hid. destruct (Nat.eq_dec id y).
+        { subst. right. apply in_or_app. right. left; auto. }
+        { generalize (SUB id n (ki_pin _ _ _ _ _ K id Hid)). intros [Q|Q]. left; auto. right. apply in_app_or in Q. apply in_or_app.
+          destruct Q; auto. right; right; auto. }
+    + intros z Hz. split; auto. right; auto.
+    + right. exists lo, y, hi'. repeat split; auto. left; auto. unfold zk'. rewrite Nat.eqb_refl. auto.
 Qed.
 
 (* ---------- the caller's iterator table ---------- *)
@@ -447,26 +606,26 @@ Lemma tab_filter : forall (A B : list (nat * option nat)) it pos, ~ In it (map f
   filter (fun p => negb (Nat.eqb (fst p) it)) (A ++ (it, pos) :: B) = A ++ B.
 Proof. intros. rewrite filter_app. simpl. rewrite Nat.eqb_refl. simpl. rewrite !tab_filter_other; auto. Qed.
 
-Lemma kinv_same_heap : forall cnt s s' C0 Zs, KInv cnt s C0 Zs ->
+Lemma kinv_same_heap : forall cnt zk s s' C0 Zs, KInv cnt zk s C0 Zs ->
   k_nodes s' = k_nodes s -> k_arrs s' = k_arrs s -> k_level s' = k_level s -> k_length s' = k_length s -> k_alive s' = k_alive s ->
-  KInv cnt s' C0 Zs.
+  KInv cnt zk s' C0 Zs.
 Proof.
-  intros cnt s s' C0 Zs K E1 E2 E3 E4 E5. constructor.
-  - eapply (sgood_transfer (RPP cnt) (RPP cnt) (ZPP cnt) (ZPP cnt) Zs Zs s s'); auto. apply (ki_good _ _ _ _ K).
+  intros cnt zk s s' C0 Zs K E1 E2 E3 E4 E5. constructor.
+  - eapply (sgood_transfer (RPP cnt) (RPP cnt) (ZPP cnt zk) (ZPP cnt zk) Zs Zs s s'); auto. apply (ki_good _ _ _ _ _ K).
     + intros. unfold dnode. rewrite E1. reflexivity.
     + intros. unfold darr. rewrite E2. reflexivity.
-  - apply (ki_pin _ _ _ _ K).
+  - apply (ki_pin _ _ _ _ _ K).
 Qed.
 
 (* the whole-state invariant: the reference counts are those of the caller's open iterators *)
 Definition TInv (s : kstate) : Prop :=
-  exists C0 Zs cnt, KInv cnt s C0 Zs /\ (forall id, cnt id = kpc (map snd (k_iters s)) id) /\
+  exists C0 Zs cnt zk, KInv cnt zk s C0 Zs /\ (forall id, cnt id = kpc (map snd (k_iters s)) id) /\
     NoDup (map fst (k_iters s)) /\ (forall i, In i (map fst (k_iters s)) -> In i (k_used s)).
 Definition KTop (s : kstate) : Prop := k_alive s = false \/ TInv s.
 
 Lemma ktop_create : KTop k_create.
 Proof.
-  right. exists [], [], (fun _ => 0). split; [|split; [|split]].
+  right. exists [], [], (fun _ => 0), (fun _ => []). split; [|split; [|split]].
   - constructor.
     + apply sgood_create_g. reflexivity.
     + intros. lia.
@@ -478,17 +637,17 @@ Qed.
 Theorem skip_step_safe : forall rc s o orc, KTop s ->
   exists s' x ns, k_step kv_fixed rc s o orc = Ok (s', x, ns) /\ KTop s'.
 Proof.
-  intros rc s o orc [D|[C0 [Zs [cnt [K [CNT [ND US]]]]]]].
+  intros rc s o orc [D|[C0 [Zs [cnt [zk [K [CNT [ND US]]]]]]]].
   { exists s, OIgnored, []. destruct rc as [[e1 e2] e3]. unfold k_step. rewrite D. simpl. split; auto. left; auto. }
-  assert (AL : k_alive s = true) by apply (sg_alive _ _ _ _ _ (ki_good _ _ _ _ K)).
+  assert (AL : k_alive s = true) by apply (sg_alive _ _ _ _ _ (ki_good _ _ _ _ _ K)).
   destruct (is_iter_op o) eqn:IO.
   - (* iterator operations *)
     destruct rc as [[e1 e2] e3]. destruct o; try discriminate; unfold k_step; rewrite AL; cbn [negb].
     + (* create *)
       destruct (existsb (Nat.eqb it) (k_used s)) eqn:EX.
-      { exists s, OIgnored, []. split; auto. right. exists C0, Zs, cnt. auto. }
-      destruct (kinv_iter_create cnt s C0 Zs K) as [h [E1 E2]]. rewrite E1. cbn [bind].
-      eexists _, _, _. split; [reflexivity|]. right. exists C0, Zs, (inc cnt HEADER). split; [|split; [|split]].
+      { exists s, OIgnored, []. split; auto. right. exists C0, Zs, cnt, zk. auto. }
+      destruct (kinv_iter_create cnt zk s C0 Zs K) as [h [E1 [E2 _]]]. rewrite E1. cbn [bind].
+      eexists _, _, _. split; [reflexivity|]. right. exists C0, Zs, (inc cnt HEADER), zk. split; [|split; [|split]].
       * eapply kinv_same_heap. exact E2. all: try reflexivity. simpl. auto.
       * intros id. cbn [k_iters map snd kpc]. unfold inc, pw. rewrite CNT. cbn [k_iters put_node set_nodes]. destruct (Nat.eqb id HEADER); lia.
       * cbn [k_iters map fst put_node set_nodes]. constructor; auto. intro Q. apply US in Q.
@@ -496,13 +655,13 @@ Proof.
       * cbn [k_iters k_used map fst put_node set_nodes]. intros i [Q|Q]. left; auto. right; auto.
     + (* next *)
       destruct (kiter_lookup (k_iters s) it) as [pos|] eqn:LK.
-      2:{ exists s, OIgnored, []. split; auto. right. exists C0, Zs, cnt. auto. }
+      2:{ exists s, OIgnored, []. split; auto. right. exists C0, Zs, cnt, zk. auto. }
       destruct (tab_split _ _ _ ND LK) as [A [B [T1 [T2 T3]]]].
       destruct pos as [p|].
       * assert (CP : 1 <= cnt p). { rewrite CNT, T1, map_app. cbn [map snd]. rewrite kpc_mid. unfold pw. rewrite Nat.eqb_refl. lia. }
-        destruct (kinv_iter_next cnt s C0 Zs p K CP) as [s' [pos1 [r [ns [Zs' [E1 [E2 [E3 [E4 E5]]]]]]]]]. rewrite E1. cbn [bind].
+        destruct (kinv_iter_next cnt zk s C0 Zs p K CP) as [s' [pos1 [r [ns [Zs' [b [E1 [E2 [[E3 [E4 E5]] _]]]]]]]]]. rewrite E1. cbn [bind].
         eexists _, _, _. split; [reflexivity|]. right. rewrite E3, T1, tab_map by auto.
-        exists C0, Zs', (match pos1 with Some x => dec (inc cnt x) p | None => dec cnt p end). split; [|split; [|split]].
+        exists C0, Zs', (match pos1 with Some x => dec (inc cnt x) p | None => dec cnt p end), zk. split; [|split; [|split]].
         { eapply kinv_same_heap. exact E2. all: reflexivity. }
         { intros id. cbn [k_iters set_kiters]. rewrite map_app. cbn [map snd]. rewrite kpc_mid.
           generalize (CNT id). rewrite T1, map_app. cbn [map snd]. rewrite kpc_mid. rewrite <- map_app. intro Q.
@@ -512,19 +671,19 @@ Proof.
         { cbn [k_iters set_kiters]. rewrite T1 in ND. rewrite map_app in *. exact ND. }
         { cbn [k_iters set_kiters k_used]. rewrite E4. intros i Hi. apply US. rewrite T1. rewrite map_app in *. exact Hi. }
       * cbn [k_iter_next bind]. eexists _, _, _. split; [reflexivity|]. right. rewrite T1, tab_map by auto. rewrite <- T1.
-        exists C0, Zs, cnt. split; [|split; [|split]]; auto. eapply kinv_same_heap. exact K. all: reflexivity.
+        exists C0, Zs, cnt, zk. split; [|split; [|split]]; auto. eapply kinv_same_heap. exact K. all: reflexivity.
     + (* free *)
       destruct (kiter_lookup (k_iters s) it) as [pos|] eqn:LK.
-      2:{ exists s, OIgnored, []. split; auto. right. exists C0, Zs, cnt. auto. }
+      2:{ exists s, OIgnored, []. split; auto. right. exists C0, Zs, cnt, zk. auto. }
       destruct (tab_split _ _ _ ND LK) as [A [B [T1 [T2 T3]]]].
       assert (NDF : NoDup (map fst (A ++ B))). { rewrite T1 in ND. rewrite map_app in *. cbn [map] in ND. apply NoDup_remove_1 in ND. exact ND. }
       assert (USF : forall i, In i (map fst (A ++ B)) -> In i (k_used s)).
       { intros i Hi. apply US. rewrite T1. rewrite map_app in *. apply in_app_or in Hi. apply in_or_app. destruct Hi; auto. right; right; auto. }
       destruct pos as [p|].
       * assert (CP : 1 <= cnt p). { rewrite CNT, T1, map_app. cbn [map snd]. rewrite kpc_mid. unfold pw. rewrite Nat.eqb_refl. lia. }
-        destruct (kinv_iter_free cnt s C0 Zs p K CP) as [s' [ns [Zs' [E1 [E2 [E3 [E4 E5]]]]]]]. rewrite E1. cbn [bind].
+        destruct (kinv_iter_free cnt zk s C0 Zs p K CP) as [s' [ns [Zs' [E1 [E2 [[E3 [E4 E5]] _]]]]]]. rewrite E1. cbn [bind].
         eexists _, _, _. split; [reflexivity|]. right. rewrite E3, T1, tab_filter by auto.
-        exists C0, Zs', (dec cnt p). split; [|split; [|split]].
+        exists C0, Zs', (dec cnt p), zk. split; [|split; [|split]].
         { eapply kinv_same_heap. exact E2. all: reflexivity. }
         { intros id. cbn [k_iters set_kiters].
           generalize (CNT id). rewrite T1, map_app. cbn [map snd]. rewrite kpc_mid. rewrite <- map_app. intro Q.
@@ -532,18 +691,18 @@ Proof.
         { exact NDF. }
         { cbn [k_iters set_kiters k_used]. rewrite E4. exact USF. }
       * unfold k_iter_free. simpl kx_iter_free. cbv iota. cbn [bind]. eexists _, _, _. split; [reflexivity|]. right. rewrite T1, tab_filter by auto.
-        exists C0, Zs, cnt. split; [|split; [|split]]; auto.
+        exists C0, Zs, cnt, zk. split; [|split; [|split]]; auto.
         { eapply kinv_same_heap. exact K. all: reflexivity. }
         { intros id. cbn [k_iters set_kiters]. rewrite (CNT id), T1, map_app. cbn [map snd]. rewrite kpc_mid. rewrite <- map_app. simpl. lia. }
   - (* the other operations *)
     assert (RMC : (exists k, o = Rm k) \/ (forall k, o <> Rm k)).
     { destruct o; try (right; intros; discriminate). left; eauto. }
     destruct RMC as [[k RK]|NR].
-    + subst o. destruct (kinv_rm cnt s C0 Zs k K) as [s' [b [ns [C0' [Zs' [E1 [E2 [E3 [E4 E5]]]]]]]]].
+    + subst o. destruct (kinv_rm cnt zk s C0 Zs k K) as [s' [b [ns [C0' [Zs' [zk' [E1 [E2 [[E3 [E4 E5]] _]]]]]]]]].
       destruct rc as [[e1 e2] e3]. unfold k_step. rewrite AL. cbn [negb]. rewrite E1. cbn [bind].
-      eexists _, _, _. split; [reflexivity|]. right. exists C0', Zs', cnt. rewrite E3, E4. auto.
-    + destruct (kinv_plain cnt s C0 Zs rc o orc K IO NR) as [s' [x [ns [E1 E2]]]]. exists s', x, ns. split; auto.
-      destruct E2 as [E2|[[C0' E2] [E3 E4]]]. left; auto. right. exists C0', Zs, cnt. rewrite E3, E4. auto.
+      eexists _, _, _. split; [reflexivity|]. right. exists C0', Zs', cnt, zk'. rewrite E3, E4. auto.
+    + destruct (kinv_plain cnt zk s C0 Zs rc o orc K IO NR) as [s' [x [ns [E1 E2]]]]. exists s', x, ns. split; auto.
+      destruct E2 as [E2|[[C0' [E2 _]] [E3 E4]]]. left; auto. right. exists C0', Zs, cnt, zk. rewrite E3, E4. auto.
 Qed.
 
 Require Import Verif.MapSkipProofs.
